@@ -318,7 +318,7 @@ func c09cFaults(t *testing.T, rep *lib.Report) {
 		}
 		sc.Phases = [][]lib.ClientFn{{func(x *lib.Exec, id int) error {
 			cw := x.Data["cw"].(*c09world)
-			return o.run(cw.w.Gated(x, id, gates))
+			return noPanic(x, func() error { return o.run(cw.w.Gated(x, id, gates)) })
 		}}}
 		sc.Faults = transientFaults(0)
 		sc.Final = func(x *lib.Exec) {
@@ -332,6 +332,9 @@ func c09cFaults(t *testing.T, rep *lib.Report) {
 			}
 			err := x.ClientErr[0]
 			x.SetOutcome(site + ";" + errTag(err))
+			if p, ok := x.Data["panic"].(string); ok {
+				x.Violate("C09|under-fault|panic|"+kind, fmt.Sprintf("%s panicked under %s: %s", o.name, site, p))
+			}
 			if site == "none" && err != nil {
 				x.Violate("C09|under-fault|error-without-fault|"+kind, err.Error())
 				return
